@@ -28,7 +28,7 @@ let n_of_hex (s : string) : coq_N =
   match !acc with None -> N0 | Some p -> Npos p
 
 let z_of_hex (s : string) : coq_Z =
-  if Stdlib.String.length s > 0 && s.[0] = '-' then
+  if Stdlib.String.length s > 0 && (Stdlib.String.get s (0)) = '-' then
     (match n_of_hex (Stdlib.String.sub s 1 (Stdlib.String.length s - 1)) with N0 -> Z0 | Npos p -> Zneg p)
   else (match n_of_hex s with N0 -> Z0 | Npos p -> Zpos p)
 
@@ -47,7 +47,7 @@ let hex_of_pos (p : positive) : string =
   for d = 0 to nd - 1 do
     let v = ref 0 in
     for k = 0 to 3 do let i = d * 4 + k in if i < nb && l.(i) then v := !v lor (1 lsl k) done;
-    Bytes.set b (nd - 1 - d) "0123456789abcdef".[!v]
+    Bytes.set b (nd - 1 - d) (Stdlib.String.get "0123456789abcdef" (!v))
   done;
   Bytes.to_string b
 
@@ -63,7 +63,7 @@ let int_of_z (z : coq_Z) : int = match z with Z0 -> 0 | Zpos p -> int_of_pos p |
 let bytes_of_hex (s : string) : coq_N list =
   if s = "-" then [] else begin
     let n = Stdlib.String.length s / 2 in
-    Stdlib.List.init n (fun i -> n_of_int (hexval s.[2*i] * 16 + hexval s.[2*i+1]))
+    Stdlib.List.init n (fun i -> n_of_int (hexval (Stdlib.String.get s (2*i)) * 16 + hexval (Stdlib.String.get s (2*i+1))))
   end
 let hex_of_bytes (l : coq_N list) : string =
   if l = [] then "-" else Stdlib.String.concat "" (Stdlib.List.map (fun b -> Printf.sprintf "%02x" (int_of_n b)) l)
@@ -111,10 +111,16 @@ let finish () =
 let run (handler : string -> string -> unit) =
   (try while true do
     let line = input_line stdin in
-    if line <> "" && line.[0] <> '#' then begin
+    if line <> "" && (Stdlib.String.get line (0)) <> '#' then begin
       incr total; sample line;
       let (c, r) = split_case line in
       (try handler c r with e -> disagree c r ("driver exception: " ^ Printexc.to_string e))
     end
   done with End_of_file -> ());
   finish ()
+
+(* substring test *)
+let contains (hay : string) (needle : string) : bool =
+  let n = Stdlib.String.length hay and m = Stdlib.String.length needle in
+  let rec go i = if i + m > n then false else if Stdlib.String.sub hay i m = needle then true else go (i + 1) in
+  go 0
